@@ -8,7 +8,9 @@ def run(tier):
     r = tlc.run("Sections.tla", "Sections.cfg", workers=12, timeout=1800, heap="12g")
     c.add_tlc(r, "placement of temperature / composition models at feature / section / segment level for each of three coordinates")
     beh = list(dict.fromkeys(r.behaviours))
-    if tier != "thorough": beh = beh[::2]
+    if tier != "thorough":
+        geo = [b for b in beh if '"geometry"' in b[:400]]
+        beh = [b for b in beh if '"geometry"' not in b[:400]][::2] + geo[::3]
     res = replay.replay(exe, beh, shards=16, timeout_s=120)
     c.add_replay(res, "as-written vs explicit vs repeated layouts (bitwise), resolved values, interpolation bounds, locality of an override")
     c.sample(beh[len(beh) // 2][:3000] + "...")
@@ -19,6 +21,9 @@ def run(tier):
                           "quick replays every second one). Per placement: the world as written, with every model written into every segment, and "
                           "with the default segments repeated for every coordinate must answer bit-identically at 9 positions along the trench; values "
                           "lie between the resolved values of the two neighbouring coordinates and equal the coordinate's own at the coordinate; removing "
-                          "one coordinate's entry leaves the answers outside its two neighbours bit-identical. non-trivial: placements with at least one entry")
+                          "one coordinate's entry leaves the answers outside its two neighbours bit-identical. Geometry family: a vertical two-segment feature whose "
+                          "section entries override segment lengths (incl. zero-length placeholder segments) and thickness per coordinate (13^3 tables x 2 "
+                          "kinds; quick every third): which segment a depth falls in, where the feature ends and how thick it is lie between the two "
+                          "neighbouring sections' values and equal a section's own at its coordinate. non-trivial: placements / tables with at least one entry")
     c.assumptions += ["uniform models; straight trench (the interpolation weight is only asserted to be a convex combination, as the statement says)"]
     return c.finish()
